@@ -3,6 +3,7 @@ package checks
 import (
 	"fmt"
 	"os"
+	"verif/ref"
 
 	"verif/fw"
 	"verif/harness"
@@ -38,4 +39,50 @@ func runSmoke(c *fw.Ctx) {
 	c.Eval(1)
 	c.Eval(2)
 	c.Sample("smoke")
+}
+
+func init() {
+	fw.Register(&fw.Check{ID: "SMOKEC", Level: "other", Rule: "client smoke", Run: runSmokeClient, QuickS: 10})
+}
+
+func runSmokeClient(c *fw.Ctx) {
+	if c.Shard != 0 {
+		return
+	}
+	h := harness.NewClient(harness.ClientOpts{})
+	defer h.Close()
+	call := h.Go(harness.ReqSpec{Tag: "a", Method: "POST", Path: "/p?q=1", Headers: [][2]string{{"X-A", "1"}, {"Connection", "close"}}, Body: []byte("hello")})
+	fmt.Println("dials:", h.Dials, "conns:", len(h.Conns), "live:", h.S.Live())
+	sc := h.Conns[0]
+	fmt.Println("client sent:", sc.Out, "settings:", sc.Settings, "errs:", sc.ProtoErrs)
+	for id, s := range sc.Streams {
+		fmt.Printf("stream %d: %+v\n", id, s)
+	}
+	h.Send(0, sc.RespFrames(1, []ref.Field{{Name: ":status", Value: "200"}, {Name: "x-r", Value: "v"}}, nil, nil, [][]byte{[]byte("wor"), []byte("ld")}, -1)...)
+	fmt.Printf("call: done=%v err=%v status=%d headers=%v body=%q\n", call.Done, call.Err, call.Status, call.Headers, call.Body)
+	fmt.Println("client sent:", sc.Out)
+	fmt.Println("armed timers:", len(h.S.Armed()), "live:", h.S.Live())
+	h.CloseClient()
+	fmt.Println("after close live:", h.S.Live(), "panics:", h.S.Panics)
+	c.Eval(1)
+	c.Eval(2)
+	c.Sample("smoke")
+}
+
+func init() {
+	fw.Register(&fw.Check{ID: "C13DBG", Level: "other", Rule: "dbg", Run: func(c *fw.Ctx) {
+		if c.Shard != 0 {
+			return
+		}
+		x := newC13()
+		for _, mv := range []string{"headers-open-block", "continuation-unfinished-field", "continuation-unfinished-field", "continuation-unfinished-field", "continuation-unfinished-field", "continuation-unfinished-field"} {
+			fmt.Println("menu:", x.menu())
+			x.apply(mv)
+			r, s, d := x.check()
+			fmt.Println(mv, "dead:", x.dead, "blockBytes:", x.blockBytes, "reaction:", x.h.Reaction(0), r, s, d)
+		}
+		c.Eval(1)
+		c.Eval(2)
+		c.Sample("x")
+	}, QuickS: 10})
 }
